@@ -264,6 +264,10 @@ class Kernel:
 
     def iter_items(self, e, env):
         """evaluate an iterator expression; returns (loop descriptor, item value)"""
+        if is_node(e) and e[0] == "path" and e[1] in env and re.search(r"\b(filter|filter_map|flat_map|take_while|skip_while|scan)\(", show(env[e[1]])):
+            # a named local holding a closure selection (`let selected = xs.iter().enumerate().filter(..).map(..)`) that is then iterated: the selection is not modelled -
+            # unrecognised, never a made-up normal form
+            raise Unrecognised("iteration over a closure selection held in a local")
         if is_node(e) and e[0] == "range":
             lo = self.expr(e[1], env) if e[1] is not None else ("int", 0)
             hi = self.expr(e[2], env) if e[2] is not None else ("inf",)
@@ -431,8 +435,6 @@ class Kernel:
             body = cl[2][1] if (is_node(cl[2]) and cl[2][0] == "block") else [["expr", cl[2], True]]
             return self.expr(["for", cl[1][0], e[1], body], env)
         if t == "mcall":
-            if e[2] in ("filter", "filter_map", "flat_map", "take_while", "skip_while", "scan") and any(is_node(a) and a[0] == "closure" for a in e[4]):
-                raise Unrecognised("iterator pipeline with a `%s` closure" % e[2])   # never a made-up normal form for a selection the evaluator does not model
             return self.mcall(e, env)
         if t == "call":
             f = path_of(e[1])
